@@ -25,7 +25,7 @@ class C16(BaseCheck):
   REQUIRED_CLASSES = ('singleton', 'refcount', 'shared', 'concurrent-first-requests', 'replaced-after-failure',
                       'surplus-close', 'reopen-after-last-close', 'same-key', 'different-key',
                       'underlying-closed-while-held', 'underlying-state-changes',
-                      'requester-abandoned-while-opening', 'several-holders', 'holder-gone-before-connect', 'concurrent-holders', 'open-during-yielding-last-close', 'open-count-zero-while-held', 'underlying-open-raises',
+                      'requester-abandoned-while-opening', 'several-holders', 'request-after-last-close', 'holder-gone-before-connect', 'concurrent-holders', 'open-during-yielding-last-close', 'open-count-zero-while-held', 'underlying-open-raises',
                       'surplus-close-from-inside-close', 'underlying-close-raises', 'underlying-open-fails-later')
   QUICK_CASES = 1500
   THOROUGH_CASES = 120000
@@ -288,9 +288,26 @@ class C16(BaseCheck):
     pool.Close()
     env.advance(0.2)
     out.obligations += 1
-    if use_pool_open and live():
-      out.violate('singleton:leaked-after-close', 'connections %r are still live after the last holder closed the pool' % (
-        [c.id for c in live()],), {})
+    if live():
+      out.violate('singleton:leaked-after-close', 'connections %r are still live after the last holder closed the pool%s' % (
+        [c.id for c in live()], '' if use_pool_open else ' (a pool that was used without being opened first)'), {'lazy': not use_pool_open})
+    elif rng.random() < 0.3:
+      # a straggler: one more request after the last holder has closed the pool makes it connect again
+      # (still one connection at a time), and the owner's Close() during shutdown closes that one too
+      classes.add('request-after-last-close')
+      issue()
+      env.settle()
+      for _ in range(50):
+        if not any(c._state == IDLE and c.open_ar is not None and not c.open_ar.ready() for c in conns):
+          break
+        env.advance(0.1)      # (closing a pool whose connection is still being made is not part of this history)
+      inv()
+      pool.Close()
+      env.advance(0.2)
+      out.obligations += 1
+      if live():
+        out.violate('singleton:leaked-after-close', 'connections %r, made for a request that arrived after the last Close(), '
+                    'are still live after the pool was closed again' % ([c.id for c in live()],), {'straggler': True})
     out.classes = sorted(classes)
     out.nontrivial = len(reqs) >= 3
     out.extra = {'connections': len(conns), 'requests': len(reqs)}
